@@ -10,8 +10,9 @@ from concurrent.futures import ThreadPoolExecutor
 VERIF = os.path.dirname(os.path.dirname(os.path.dirname(os.path.abspath(__file__))))
 REPO = os.environ.get("VERIF_REPO", "/repo")
 PY = "/venv/bin/python"
-COQDIR = os.path.join(VERIF, "coq")
-WORK = os.path.join(VERIF, "work")
+# seeded-change runs use private copies (VERIF_COQDIR, VERIF_WORK) so that several can run side by side
+COQDIR = os.environ.get("VERIF_COQDIR") or os.path.join(VERIF, "coq")
+WORK = os.environ.get("VERIF_WORK") or os.path.join(VERIF, "work")
 NPROC = int(os.environ.get("VERIF_NPROC", "16"))
 GUARD = "HDL21_VERIF"
 
